@@ -29,6 +29,7 @@ func Count(v reflect.Value) int {
 
 // Distinct returns the values passed in with any duplicates removed.
 func Distinct(v reflect.Value) interface{} {
+	arg := v
 	v = jtypes.Resolve(v)
 
 	// To match the behavior of jsonata-js, if this is a string we should
@@ -73,6 +74,12 @@ func Distinct(v reflect.Value) interface{} {
 			distinctValues = reflect.Append(distinctValues, item)
 		}
 		return distinctValues.Interface()
+	}
+
+	// Any other value counts as a one-member array: it is
+	// its own distinct value.
+	if arg.IsValid() && arg.CanInterface() {
+		return arg.Interface()
 	}
 
 	return nil
